@@ -100,6 +100,11 @@ func VH_C14_StackClosures(p []int) {
 		s = Basic()
 	}
 	s.Push("a", "b")
+	// no display or addressing option changes who decides
+	opt := cfgFlag(nondetUint16()) & (parens | cfold | nspad | lonce | negidx | fwdidx)
+	if cfg, _ := s.config(); cfg != nil {
+		cfg.opt = opt
+	}
 	other := And().Push("zzz")
 	same := func() Stack {
 		switch p[0] {
@@ -114,6 +119,9 @@ func VH_C14_StackClosures(p []int) {
 		}
 		return Basic().Push("a", "b")
 	}()
+	if cfg, _ := same.config(); cfg != nil {
+		cfg.opt = opt // the same description, built independently
+	}
 	builtinString := s.String()
 	builtinUn, _ := s.Unmarshal()
 	sentinel := errorf("sentinel")
@@ -161,6 +169,10 @@ func VH_C14_StackClosures(p []int) {
 				})
 				verifAssert((s.IsEqual(other) == nil) == eq, "equality-closure-result")
 				verifAssert((s.IsEqual(same) == nil) == eq, "equality-closure-result-same")
+				// ... also when the comparand is the receiver itself
+				verifAssert((s.IsEqual(s) == nil) == eq, "equality-closure-result-self")
+				verifAssert((s.IsEqual(vhAliasStack(s)) == nil) == eq, "equality-closure-result-self-alias")
+				verifAssert((s.IsEqual(&s) == nil) == eq, "equality-closure-result-self-pointer")
 			}
 			s.SetEqualityPolicy()
 			verifAssert(s.IsEqual(other) != nil, "equality-restored-different")
@@ -252,6 +264,7 @@ func VH_C14_CondValidityDecides(p []int) {
 
 func VH_C14_CondClosures(p []int) {
 	c := Cond("kw", Eq, "ex")
+	c.condition.cfg.opt = cfgFlag(nondetUint16()) & (parens | cfold | nspad | nnest)
 	other := Cond("kw", Ne, "ex")
 	same := Cond("kw", Eq, "ex")
 	builtinString := c.String()
@@ -295,6 +308,10 @@ func VH_C14_CondClosures(p []int) {
 					return sentinel
 				})
 				verifAssert((c.IsEqual(other) == nil) == eq, "equality-closure-result")
+				verifAssert((c.IsEqual(same) == nil) == eq, "equality-closure-result-same")
+				verifAssert((c.IsEqual(c) == nil) == eq, "equality-closure-result-self")
+				verifAssert((c.IsEqual(vhAliasCond(c)) == nil) == eq, "equality-closure-result-self-alias")
+				verifAssert((c.IsEqual(&c) == nil) == eq, "equality-closure-result-self-pointer")
 			}
 			c.SetEqualityPolicy()
 			verifAssert(c.IsEqual(other) != nil, "equality-restored-different")
